@@ -131,7 +131,7 @@ func (l *link) transmit(b []byte, split bool) error {
 			switch c := dsim.Choose(30); {
 			case c < 10:
 				dsim.Sleep(time.Duration(1+dsim.Choose(400)) * time.Millisecond)
-			case c == 29 && l.e.cfg.idleTO > 0 && l.e.cfg.idleTO < 10*time.Second:
+			case c == 29 && l.e.slowLinks && l.e.cfg.idleTO > 0 && l.e.cfg.idleTO < 10*time.Second:
 				// a slow link: the rest of the frame comes later than the node's idle timeout
 				count("fault:mid-frame-pause-beyond-idle-timeout")
 				dsim.Sleep(l.e.cfg.idleTO + time.Duration(100+dsim.Choose(900))*time.Millisecond)
@@ -211,6 +211,20 @@ func (l *link) send(kind int, split bool) error {
 		l.txErr = err
 	}
 	l.txMu.Unlock()
+	return err
+}
+
+// sendPartial puts the first k bytes (0 < k < frame length) of an otherwise valid frame on a
+// stream link: the peer stalls (or dies) in the middle of a frame.
+func (l *link) sendPartial() error {
+	dsim.EnsureReleased("peer-partial")
+	l.txMu.Lock()
+	f, idx := l.mkFrame()
+	b := f.Encode()
+	k := 1 + dsim.Choose(len(b)-1)
+	l.txMu.Unlock()
+	dsim.Record("peer-tx-partial", fmt.Sprintf("%s idx=%d %x of %x", l.name, idx, b[:k], b), nil, int64(l.id), int64(k), int64(idx))
+	_, err := l.conn.Write(b[:k])
 	return err
 }
 
